@@ -2175,11 +2175,12 @@ class BackendMixin(PasswordHash):
         """
         helper for subclasses to create stub methods which auto-load backend.
         """
-        if cls.__backend:
-            raise AssertionError(
-                f"{cls.name}: _finalize_backend({cls.__backend!r}) failed to replace lazy loader"
-            )
-        cls.set_backend()
+        with _backend_lock:
+            if cls.__backend:
+                # another thread finished loading the backend after this thread had already
+                # entered the stub: nothing left to do, the caller re-dispatches to the real method.
+                return
+            cls.set_backend()
         if not cls.__backend:
             raise AssertionError(
                 f"{cls.name}: set_backend() failed to load a default backend"
